@@ -98,7 +98,7 @@ func gen(t *rapid.T) Case {
 		switch rapid.IntRange(0, 9).Draw(t, "patMode") {
 		case 0, 1:
 			call.Label = "documented-fault"
-			f := rapid.SampledFrom([]string{"{}", "{:r}", "{q:[}", "{q:(}", "{q:a)|(b}", "ADJ", "DUP"}).Draw(t, "fault")
+			f := rapid.SampledFrom([]string{"{}", "{:r}", "{q:[}", "{q:(}", "{q:a)|(b}", "ADJ", "DUP", "{q-1:\\d+}", "{编号:\\d+}"}).Draw(t, "fault") // the last two: a regexp parameter whose name cannot name a capture group
 			switch f {
 			case "ADJ":
 				if i := strings.IndexByte(base.Src, '}'); i >= 0 {
